@@ -160,13 +160,10 @@ fn check_memdesc_array<const N: usize>(arr: [MDMemoryDescriptor; N]) {
 }
 
 // alloc_from_array: position == old end, array_size == n, image == old + concat(ser(elem_i)).
-// Bound: n in {0, 2} elements of MDMemoryDescriptor after a 2-byte image.
+// Bound: 2 elements of MDMemoryDescriptor after a 2-byte image. (A zero-length array makes CBMC
+// explore the slice iterator with dangling pointers: > 13 GB, dropped.)
 #[kani::proof]
-#[kani::unwind(4)]
-fn vk_alloc_from_array_memdesc_n0() { check_memdesc_array::<0>([]); }
-
-#[kani::proof]
-#[kani::unwind(4)]
+#[kani::unwind(35)]
 fn vk_alloc_from_array_memdesc_n2() { check_memdesc_array::<2>([any_memdesc(), any_memdesc()]); }
 
 // alloc_from_array::<u8>: the byte-copy used for the instruction-pointer window. Bound: 5 bytes.
@@ -189,7 +186,7 @@ fn vk_alloc_from_array_u8_n5() {
 // alloc_from_iter: same law through the ExactSizeIterator route (module list, handle list).
 // Bound: 2 elements of MDRawThreadName (12 bytes each) after a 2-byte image.
 #[kani::proof]
-#[kani::unwind(4)]
+#[kani::unwind(27)]
 fn vk_alloc_from_iter_threadname_n2() {
     let (mut b, old) = buffer_with::<2>();
     let t: [(u32, u64); 2] = kani::any();
@@ -259,10 +256,26 @@ fn vk_string_empty() {
     check_string("", &[0; 4], 0);
 }
 
+// one char from the Basic Multilingual Plane (one UTF-16 unit), every such scalar value
 #[kani::proof]
 #[kani::unwind(6)]
-fn vk_string_1char() {
+fn vk_string_1char_bmp() {
     let c: char = kani::any();
+    kani::assume((c as u32) < 0x10000);
+    let mut buf = [0u8; 4];
+    let s: &str = c.encode_utf8(&mut buf);
+    let mut units = [0u16; 4];
+    let mut n = 0;
+    utf16_spec(c, &mut units, &mut n);
+    check_string(s, &units, n);
+}
+
+// one supplementary-plane char (a surrogate pair), every such scalar value
+#[kani::proof]
+#[kani::unwind(6)]
+fn vk_string_1char_supp() {
+    let c: char = kani::any();
+    kani::assume((c as u32) >= 0x10000);
     let mut buf = [0u8; 4];
     let s: &str = c.encode_utf8(&mut buf);
     let mut units = [0u16; 4];
